@@ -2,8 +2,8 @@
 # scripts/seed_verify.sh Cnn : confirm a seeded change produced in /tmp/mut/Cnn and store it under seeded/Cnn
 set -u
 id=$1
-wt=/tmp/mut/$id
-out=/verif/seeded/$id
+root=${2:-/tmp/mut}; sfx=${3:-}; wt=$root/$id
+out=/verif/seeded/$id$sfx
 export GOFLAGS=-mod=mod GOPROXY=off GOSUMDB=off GOTOOLCHAIN=local
 mkdir -p $out
 cd $wt || exit 2
